@@ -1,0 +1,33 @@
+//go:build verif
+
+// Contracts for the deductive checks in /verif (structured comments only; this file declares nothing).
+//
+// Byte streams are abstract strings: stream[r] is what reader r yields, wacc[w] what has been written to writer w;
+// b64enc/b64dec/deflate/inflate/prefix are uninterpreted (assumed contracts of the libraries are in /verif/contracts/lib).
+package xml
+
+//@ pure payload(b64, message) = b64 ? b64dec(message) : message
+//@ pure maxInflated() = 33554432
+//@
+//@ func xml.InflateAndDecode
+//@   names out, err
+//@   property C14 C18
+//@   ensures C18.unknown-encoding-is-error: encoding != "" && encoding != EncodingDeflate ==> err != nil && len(out) == 0
+//@   ensures C18.bad-base64-is-error: b64 && !b64ok(message) ==> err != nil
+//@   ensures C18.plain: err == nil && encoding == "" ==> string(out) == payload(b64, message)
+//@   ensures C14,C18.inflates-all-or-fails: err == nil && encoding == EncodingDeflate ==> string(out) == inflate(payload(b64, message))
+//@   ensures C14.result-bounded: err == nil && encoding == EncodingDeflate ==> len(out) <= maxInflated()
+//@   ensures C14.materialisation-bounded: materialised <= old(materialised) + maxInflated() + 1
+//@   canary C14.canary-always-fails: err != nil
+//@
+//@ func xml.DeflateAndBase64
+//@   names out, err
+//@   property C18
+//@   ensures encodes-deflate-then-base64: err == nil ==> string(out) == b64enc(deflate(string(data)))
+//@   canary canary-identity: err == nil ==> string(out) == string(data)
+//@
+//@ func xml.Marshal
+//@   names out, err
+//@   property C18
+//@   ensures header-then-one-document: err == nil ==> string(out) == xml.Header + xmlenc(tagof(data), valof(data))
+//@   ensures error-means-nothing: err != nil ==> len(out) == 0
